@@ -155,7 +155,7 @@ fn enumerate_expiry(ctx: &mut Ctx, s: &Session, l1: &[Mv], tf: &ThreeFold, tf_us
     let positional = ctx.tape.choose(2) == 1;
     let cap: u64 = match ctx.tier {
         Tier::Quick => 1200,
-        Tier::Thorough => 5000,
+        Tier::Thorough => 4000,
     };
     let mut first_some: Option<u64> = None;
     let mut k = 0u64;
